@@ -25,7 +25,8 @@ REQUIRED = ["probe.first_once", "deplete.duration", "deplete.current", "log.firs
             "log.stops_at_first_violation", "battery.must_be_source", "deplete.every_solved_step_handed_over"]
 # battery.source_accepted is evaluated only when batt_life raises something that is not a solver failure (never on a correct tree)
 SIZES = {"quick": 45, "thorough": 330}
-ASSUMPTIONS = ["a battery that delivers no current in a system without phases is outside the quantifier (infinite time step)",
+ASSUMPTIONS = ["phase durations are positive (a zero-duration phase cannot advance the strictly increasing time axis)",
+               "a battery that delivers no current in a system without phases is outside the quantifier (infinite time step)",
                "batt_life solves with its internal defaults (vtol=1e-5, itol=1e-6); the twin is solved with the same settings"]
 
 
@@ -67,6 +68,11 @@ def gen(rng, i, tier):
         rng, n_comp=(2, 10), n_src=(1, 3) if rng.random() < 0.5 else (1, 1), mux=0.3, polarity="pos", regime="benign",
         tables=0.3, phases=0.6, max_depth=4, phase_conf=0.5, rails=rng.choice([0.0, 0.6]), general2d=0.0,
     )
+    # a depletion step of a zero-duration phase cannot advance the time axis ("strictly increasing time"): phase
+    # durations are positive for this property
+    for p_ in list(spec.get("phases") or {}):
+        if spec["phases"][p_] == 0:
+            spec["phases"][p_] = 1.0
     if i % 3 != 0:  # battery addressed by its rail name: make sure a source has one
         srcs = [c for c in spec["comps"] if c["kind"] == "Source"]
         if not any(c.get("rail") for c in srcs):
